@@ -398,13 +398,31 @@ func genItem(t *Tape) Item {
 		it.Inputs = append(it.Inputs, ProgInput{Name: "in2.json", Data: QBytes(doc())})
 	}
 	k1, k2 := histKeys[t.Draw(len(histKeys))], histKeys[t.Draw(len(histKeys))]
-	switch t.Weighted(5, 5, 3, 3, 3, 2, 2, 2, 2, 2, 2, 1, 1, 4, 2, 3, 2, 4, 3, 3, 5) {
+	switch t.Weighted(5, 5, 3, 3, 3, 2, 2, 2, 2, 2, 2, 1, 1, 4, 2, 3, 2, 4, 3, 3, 5, 3, 4) {
 	case 13:
 		// regular expressions: literal and string forms, patterns that share
 		// prefixes and lengths (a process-level cache keyed too coarsely shows here)
 		pats := []string{"^al", "^alp", "^alpha$", "a$", "a$|u$", "eta", "eta$", "^(be|ga)", "^(be|ga|de)", "^.a", "^.e", "^...$", "^....$", "[aeiou]{2}", "[aeiou]t", "^[a-m]", "^[n-z]", "mu|nu", "mu|xi"}
 		p1, p2 := pats[t.Draw(len(pats))], pats[t.Draw(len(pats))]
 		it.Prog = fmt.Sprintf("{ for (k, v in $) { if (k ~ /%s/) { print \"m1\", k }\n if (k !~ \"%s\") { print \"n2\", k } } }", p1, p2)
+	case 21:
+		// pattern forms that are errors today must be the same error every time
+		it.Inputs = []ProgInput{{Name: "in.json", Data: QBytes(`{"alpha": 1, "beta": 2, "gamma": 3} {"alpha": [1], "beta": 2} {"alpha": 1, "beta": {"x": 1, "y": [1]}}`)}}
+		it.Prog = []string{
+			"{ print match ($) { {alpha: 1, beta: mb} => mb, mo => \"other\" } }",
+			"{ print match ($) { {alpha: mv, beta: mv, gamma: mv} => mv, {alpha: mv, beta: mv} => mv, mo => \"other\" } }",
+			"{ for (k, v in $) { print match (v) { {x: 1, y: [1]} => \"o\", 5 => \"five\", mq => k } } }",
+			"{ print match ($) { {alpha: 2, beta: 3} => \"no\", {alpha: 1, beta: 3} => \"no2\", mo => \"other\" } }",
+		}[t.Draw(4)]
+	case 22:
+		// root selectors that keep state or have effects: every evaluation starts from scratch
+		it.Selectors = [][]string{
+			{"$[sn++]", "$[sn++]"},
+			{"match (calls = calls + 1) { 1 => $.alpha, mc => $.beta }", "match (calls = calls + 1) { 1 => $.alpha, mc => $.beta }"},
+			{"[seen++, $]"},
+			{"{count: n++, doc: $}", "n"},
+		}[t.Draw(4)]
+		it.Prog = "{ print }\nENDFILE { print \"ef\" }"
 	case 20:
 		// zeros of both signs, numbers that print alike, values that only differ in representation
 		it.Inputs = []ProgInput{{Name: "in.json", Data: QBytes(`[{"z": 0, "nz": -0, "h": 0.2, "nh": -0.2, "one": 1, "onef": 1.0, "big": 1e21, "tiny": 1e-7}]`)}}
